@@ -54,8 +54,13 @@ SysSetVol(w, m, v) ==
 (* a load that fails (or succeeds) elsewhere must leave the flag alone *)
 SysFailedLoad(w) == ResW("exception", {w}, 0)
 
-(* bulk edit of pattern q (one cell): all-or-nothing; after a commit the installed note carries module number n *)
-SysBulk(w, q, n, fail) == IF fail THEN ResW("callable-exception", {w}, 0) ELSE ResW("ok", {[w EXCEPT !.p.nmod[q] = n]}, 0)
+(* bulk edit of pattern q (two cells; the note that note.mod reads is cell 1): all-or-nothing; a dense edit installs notes *)
+(* carrying module number n in every cell, a sparse edit (generator form) touches cell 2 only - cell 1 keeps its content   *)
+(* and must keep resolving against the pattern's own project                                                              *)
+SysBulk(w, q, n, fail, sparse) ==
+  IF fail THEN ResW("callable-exception", {w}, 0)
+  ELSE IF sparse THEN ResW("ok", {w}, 0)
+  ELSE ResW("ok", {[w EXCEPT !.p.nmod[q] = n]}, 0)
 (* Module.clone(): a free copy (through serialization) of module src, bound to the free id dst: same controller value, no links *)
 SysClone(w, src, dst) == ResW("ok", {[w EXCEPT !.vol[dst] = w.vol[src], !.t[dst] = NoLinks]}, 0)
 
